@@ -11,7 +11,13 @@ gradient w.r.t. every raw hyperparameter with a dense torch.linalg reference on 
 parameter name) and over the operations on the model objects before the objective is evaluated (set hyperparameters,
 copy.deepcopy, fresh model + load_state_dict, pickle round trip); TLC proves that every prior term reads the current value of
 THIS object's parameter under the semantics Python gives bound methods and functions, and every reachable history is
-replayed into the real classes: value (stub digits) and gradient of both objectives for every live object."""
+replayed into the real classes: value (stub digits) and gradient of both objectives for every live object.
+(f) the batch shape of the TARGET is a dimension of the assembly lattice and of the dense lattice (ExactObjective.tla
+TargetShapes / Pattern): equal to the batch shape of the distribution, extra leading dimensions, batch dimensions missing,
+unit dimensions, widened unit dimensions of the distribution, both at once - and (dense) inputs that carry the batch shape or
+are shared by a batch of hyperparameter settings.  The definition gives one value per element of the broadcast of the two
+shapes, each divided by the number of observations of ONE batch element; TLC proves the divisor of the transcribed code right
+on every pair (DivisorOK) and must find a counterexample when the divisor is read off the target's shape (slip run)."""
 import copy
 import io
 import math
@@ -27,13 +33,17 @@ LEVEL = "model_checking"
 PID = "C02"
 H = dense.H
 
-ALL_REPAIRS = ("prior_memo", "prior_batch_shape")
+ALL_REPAIRS = ("prior_memo", "prior_batch_shape", "loo_broadcast")
 # Repairs of ExactObjective.tla that are present in the tree under test; () models the pinned code.  After committing a
 # fix to /repo add its name here, otherwise the check still passes but reports MODEL-DRIFT.
-REPAIRS_IN_TREE = ("prior_memo",)  # fix: commit in /repo (named_priors memo)
+REPAIRS_IN_TREE = ("prior_memo", "loo_broadcast")  # fix: commits in /repo (named_priors memo; LOO broadcasts marginal and target batch shapes)
+# "loo_broadcast" = findings/C02/fix_loo_target_batch.diff (LeaveOneOutPseudoLikelihood broadcasts mean and target); until it is in the
+# tree the leave-one-out cells whose target batch shape is not aligned with the distribution's fail with C02/loo-mean-reshaped-to-target/*
 if os.environ.get("VERIF_C02_REPAIRS") is not None:      # development override, e.g. VERIF_C02_REPAIRS=prior_memo
     REPAIRS_IN_TREE = tuple(x for x in os.environ["VERIF_C02_REPAIRS"].split(",") if x in ALL_REPAIRS)
 
+# ExactObjective.tla Pattern(B, tb): batch shape of the target against the batch shape of the distribution
+PATTERNS = ("equal", "extra", "lacks", "unit", "widen", "mixed")
 SITES = {"plain": ("noise", "mean", "outputscale", "lengthscale"), "shared": ("noise", "mean", "outputscale", "lengthscale"),
          "mtask": ("noise", "mean", "task_noises", "lengthscale")}
 TAILS = {"plain": ((1,), (), (), (1, 2)), "shared": ((1,), (), (), (1, 2)), "mtask": ((1,), (), (2,), (1, 2))}
@@ -56,18 +66,20 @@ def tla(v):
 
 
 def write_mc(workdir, name, part, repairs=(), archs=("plain",), batches=((),), ns=(3,), maxmodels=1, instances=(), invariants=(),
-             regmenu=(), histlen=0, maxobjs=1, maxgen=0, sethows=("setter",), slips=()):
+             regmenu=(), histlen=0, maxobjs=1, maxgen=0, sethows=("setter",), slips=(), extras=(), divslips=(), patternbatches=()):
     os.makedirs(workdir, exist_ok=True)
     mod = "MC_ExactObjective_" + name
     with open(os.path.join(workdir, mod + ".tla"), "w") as f:
-        f.write("---- MODULE %s ----\nEXTENDS ExactObjective\nBatchesDef == {%s}\nInstDef == {%s}\nRegMenuDef == {%s}\n====\n" % (
-            mod, ", ".join(tla(list(b)) for b in batches), ",\n  ".join(tla(i) for i in instances), ", ".join(tla(list(r)) for r in regmenu)))
+        f.write("---- MODULE %s ----\nEXTENDS ExactObjective\nBatchesDef == {%s}\nInstDef == {%s}\nRegMenuDef == {%s}\nPatternBatchesDef == {%s}\n====\n" % (
+            mod, ", ".join(tla(list(b)) for b in batches), ",\n  ".join(tla(i) for i in instances), ", ".join(tla(list(r)) for r in regmenu),
+            ", ".join(tla(list(b)) for b in patternbatches)))
     cfg = os.path.join(workdir, mod + ".cfg")
     tlc.write_cfg(cfg, spec="Spec",
                   constants={"Part": part, "Repairs": set(repairs), "Archs": set(archs), "Batches": "<- BatchesDef",
                              "Ns": tlc.Raw("{" + ", ".join(map(str, ns)) + "}"), "MaxModels": maxmodels, "Instances": "<- InstDef",
                              "RegMenu": "<- RegMenuDef", "HistLen": histlen, "MaxObjs": maxobjs, "MaxGen": maxgen,
-                             "SetHows": set(sethows), "Slips": set(slips)},
+                             "SetHows": set(sethows), "Slips": set(slips),
+                             "PatternBatches": "<- PatternBatchesDef", "Extras": tlc.Raw("{" + ", ".join(map(str, extras)) + "}"), "DivSlips": set(divslips)},
                   invariants=list(invariants))
     return os.path.join(workdir, mod + ".tla"), cfg
 
@@ -160,6 +172,7 @@ def build_asm(torch, gpytorch, cf, seed):
     StubPrior, StubLoss = stubs(torch, gpytorch)
     D = torch.float64
     arch, B, n = cf["arch"], tuple(cf["B"]), cf["n"]
+    TB = tuple(cf.get("tb", B))              # batch shape of the target (ExactObjective.tla TargetShapes)
     T = 2 if arch == "mtask" else 1
     tails = TAILS[arch]
     own = [B if cf["pri"][k] == "batch" else () for k in range(4)]
@@ -170,7 +183,7 @@ def build_asm(torch, gpytorch, cf, seed):
         own[2] = own[3]
     g = torch.Generator().manual_seed(seed)
     x = torch.rand(*B, n, 2, generator=g, dtype=D)
-    y = torch.randn(*B, n, T, generator=g, dtype=D) if T > 1 else torch.randn(*B, n, generator=g, dtype=D)
+    y = torch.randn(*TB, n, T, generator=g, dtype=D) if T > 1 else torch.randn(*TB, n, generator=g, dtype=D)
     K, L = gpytorch.kernels, gpytorch.likelihoods
     base = K.RBFKernel(ard_num_dims=2, batch_shape=torch.Size(own[3]))
     mean = gpytorch.means.ConstantMean(batch_shape=torch.Size(own[1]))
@@ -245,9 +258,9 @@ def main_terms(torch, model, lik, x, y, obj, T, grad=False):
     with torch.enable_grad() if grad else torch.no_grad():
         marg = lik(model(x))
         A = marg.covariance_matrix
-        B = tuple(y.shape[:-2]) if T > 1 else tuple(y.shape[:-1])
+        TB = tuple(y.shape[:-2]) if T > 1 else tuple(y.shape[:-1])
         m = marg.mean.reshape(*marg.mean.shape[:-2], -1) if T > 1 else marg.mean
-        yy = y.reshape(*B, -1)
+        yy = y.reshape(*TB, -1)              # dense_logN / dense_loo_terms broadcast the batch shapes of y, m and A
         if obj == "mll":
             return dense.dense_logN(torch, yy, m, A)
         return (dense.dense_loo_terms(torch, yy, m, A) + H).sum(-1)
@@ -267,32 +280,42 @@ def decode(total, arch):
     return "{" + ", ".join(ds) + "}"
 
 
-def asm_causes(cf):
-    """why HEAD is predicted to miss the definition in this configuration"""
-    arch, B = cf["arch"], cf["B"]
+def asm_causes(cf, why, pattern):
+    """why the code of the tree is predicted to miss the definition in this configuration (why: the clauses of Conventional
+    that ExactObjective.tla finds false for it)"""
+    arch = cf["arch"]
     causes = []
-    lead = [SITES[arch][k] for k in range(4) if cf["pri"][k] == "flat" and any(d != 1 for d in TAILS[arch][k][:len(B)])]
+    lead = [SITES[arch][k] for k in range(4) if why["shape"][k]]
     if lead and "prior_batch_shape" not in REPAIRS_IN_TREE:
-        causes.append("unbatched-prior-taken-for-batched/" + "+".join(lead))
-    if arch == "shared" and cf["pri"][3] != "none" and "prior_memo" not in REPAIRS_IN_TREE:
+        # same statement of the code (prior_term.shape[:res.ndim]) and same repair: a BATCHED parameter under a target with extra
+        # leading dimensions has its batch dimensions paired with the wrong dimensions of the objective
+        sub = "target-%s-dims/" % pattern if any(cf["pri"][k] == "batch" for k in range(4) if why["shape"][k]) else ""
+        causes.append("unbatched-prior-taken-for-batched/" + sub + "+".join(lead))
+    if why["twice"] and "prior_memo" not in REPAIRS_IN_TREE:
         causes.append("shared-module/prior-counted-per-path")
     return causes
 
 
 def run_asm(torch, gpytorch, case):
     cf, exp, code, agree = case["cf"], case["exp"], case["code"], case["agree"]
-    B = tuple(cf["B"])
+    B = tuple(cf["B"])               # batch shape of the marginal distribution
+    OB = tuple(exp["shape"])         # batch shape of the objective: distribution and target broadcast
     pri = {SITES[cf["arch"]][k]: cf["pri"][k] for k in range(4) if cf["pri"][k] != "none"}
-    desc = "%s arch=%s batch=%s N=%d priors=%s added_loss(covar_module, inner kernel)=%s" % (cf["obj"], cf["arch"], list(B), cf["n"], pri, list(cf["loss"]))
-    causes = asm_causes(cf)
+    desc = "%s arch=%s batch=%s target batch=%s (%s) N=%d priors=%s added_loss(covar_module, inner kernel)=%s" % (
+        cf["obj"], cf["arch"], list(B), list(cf["tb"]), exp["pattern"], cf["n"], pri, list(cf["loss"]))
+    causes = asm_causes(cf, case["why"], exp["pattern"])
+    loo_shape = case["why"]["loo"] and "loo_broadcast" not in REPAIRS_IN_TREE
     nontrivial = bool(pri) or any(s in ("scalar", "batch") for s in cf["loss"])
     res = dict(key=["asm", cf], ok=True, nontrivial=nontrivial, predicted=not agree, sample=dict(configuration=desc, expected_other_terms=exp["other"], divisor=exp["div"]))
 
     def fail(sym, detail, as_predicted):
-        if as_predicted and causes:
+        if loo_shape and sym in ("raises", "terms") and not (as_predicted and causes):
+            # LeaveOneOutPseudoLikelihood reshapes the mean to the target's shape: raises, or pairs the wrong batch elements
+            sig = "C02/loo-mean-reshaped-to-target/assembly/%s/%s" % (exp["pattern"], sym)
+        elif as_predicted and causes:
             sig = "C02/assembly/" + (causes[0] if len(causes) == 1 else causes[0] + "+shared-module")
         else:
-            sig = "C02/assembly/%s/%s/B%d/%s" % (cf["arch"], cf["obj"], len(B), sym)
+            sig = "C02/assembly/%s/%s/B%d%s/%s" % (cf["arch"], cf["obj"], len(B), "" if exp["pattern"] == "equal" else "/target-" + exp["pattern"], sym)
         res.update(ok=False, sig=sig, detail=desc + ": " + detail, case=case)
         return res
 
@@ -305,14 +328,18 @@ def run_asm(torch, gpytorch, case):
         if code["err"] and not agree:
             return fail("raises", "objective raised %s; definition: other terms %s / %d" % (val, exp["other"], exp["div"]), True)
         return fail("raises", "objective raised %s" % val, False)
-    if tuple(val.shape) != B:
-        return fail("shape", "objective has shape %s, batch shape is %s" % (list(val.shape), list(B)), code["err"] and not agree)
+    if tuple(val.shape) != OB:
+        return fail("shape", "objective has shape %s, the batch shapes of the distribution and of the target broadcast to %s" % (list(val.shape), list(OB)),
+                    code["err"] and not agree)
+    if tuple(ref.shape) != (int(math.prod(OB)),):
+        raise core.Machinery("dense main term has %s elements, the objective %s: %s" % (list(ref.shape), list(OB), desc))
     got = ((val.detach().reshape(-1) - exp["hc"] * H) * exp["div"] - ref).tolist()
     want = [float(v) for v in exp["other"]]
     good = all(abs(a - b) <= 1e-6 for a, b in zip(got, want))
-    res["code_matches_model"] = (not code["err"]) and all(abs(a - float(b)) <= 1e-6 for a, b in zip(got, code["other"]))
+    # (a leave-one-out cell whose mean is reshaped across batch elements is an error of the transcribed code whether it raises or not)
+    res["code_matches_model"] = ((not code["err"]) and all(abs(a - float(b)) <= 1e-6 for a, b in zip(got, code["other"]))) or (loo_shape and not good)
     if not good:
-        detail = "N_obs * objective - main term = %s per batch element, definition %s" % ([decode(v, cf["arch"]) for v in got], [decode(v, cf["arch"]) for v in want])
+        detail = "N_obs * objective - main term = %s per batch element with N_obs = %d, definition %s" % ([decode(v, cf["arch"]) for v in got], exp["div"], [decode(v, cf["arch"]) for v in want])
         return fail("terms", detail, res["code_matches_model"] and not agree)
     return res
 
@@ -710,6 +737,21 @@ def check_slip_counterexample(ck, r):
                                            objects=[dict(definition=o["exp"], code_with_slip=o["code"], closure_reads_object=o["reads"]) for o in last["out"]["objs"]])
 
 
+def check_div_slip_counterexample(ck, r):
+    """the assembly run with DivSlips = {num_data_from_target} must end in a counterexample to DivisorOK whose target batch shape
+    differs from the distribution's: otherwise the lattice does not contain the pairs of batch shapes that tell the number of
+    observations of a batch element from the element count of the target"""
+    v = r.violation
+    if not v or v.get("name") != "DivisorOK":
+        ck.vacuous("ExactObjective assembly lattice with the slip num_data_from_target: TLC found no counterexample to DivisorOK")
+        return
+    last = plain(v["trace"][-1][1] if isinstance(v["trace"][-1], (tuple, list)) else v["trace"][-1])
+    if last["c"]["tb"] == last["c"]["B"]:
+        ck.vacuous("counterexample of the divisor slip run has equal batch shapes: %s" % (last["c"],))
+    ck.extra["divisor_slip_counterexample"] = dict(slip="num_data_from_target", distribution_batch=last["c"]["B"], target_batch=last["c"]["tb"],
+                                                   arch=last["c"]["arch"], objective=last["c"]["obj"], observations=last["out"]["exp"]["div"])
+
+
 # ---------------------------------------------------------------------------------------------
 def run(ck):
     thorough = ck.tier == "thorough"
@@ -717,13 +759,18 @@ def run(ck):
     import gpytorch  # noqa: F401  (imported before the workers fork)
     rnd = random.Random(ck.seed)
     ck.rule = ("assembly: every configuration TLC enumerates (module DAG plain / kernel object shared by two paths / multitask x objective x batch "
-               "shape x N x {no prior, prior on an unbatched parameter, prior on a batched parameter} per site x added-loss menu), stub terms decoded "
-               "from the real objective and compared with the declarative sum; non-trivial = at least one prior or added loss term present.  "
+               "shape of the distribution x batch shape of the target {equal, extra leading dimensions, batch dimensions missing, unit dimensions, "
+               "unit dimensions of the distribution widened, both} x N x {no prior, prior on an unbatched parameter, prior on a batched parameter} per "
+               "site x added-loss menu; away from equal shapes: at most one prior site or all four of one kind, two added-loss settings), stub terms "
+               "decoded per element of the broadcast batch shape from the real objective with the divisor N x tasks and compared with the declarative "
+               "sum; non-trivial = at least one prior or added loss term present.  "
                "sum: every sequence of member models up to the bound; non-trivial = more than one member.  rational: seeded integer instances, "
                "distinct by construction; non-trivial = n >= 2 and a non-diagonal kernel matrix.  dense: every lattice cell (kernel x mean x "
                "likelihood x batch x prior assignment x objective x solver setting x {priors given to the constructors, registered by parameter name} x "
-               "{fresh, deep copy then other hyperparameters, fresh model that loaded a state_dict}) x seeds, value and gradient w.r.t. every raw "
-               "hyperparameter; non-trivial = all; distinct = cells.  history: every reachable state of the machine of part \"history\" (registration "
+               "{fresh, deep copy then other hyperparameters, fresh model that loaded a state_dict} + batch shape of the modules {(), (2), (1)} x batch "
+               "shape of the target (same classes as the assembly) x {inputs carry the batch shape, one set of inputs shared by the batch}) x seeds, "
+               "value per broadcast batch element against [log N + log priors] / (N x tasks) and gradient of a weighted sum over the batch elements "
+               "w.r.t. every raw hyperparameter; non-trivial = all; distinct = cells.  history: every reachable state of the machine of part \"history\" (registration "
                "menu over {none, constructor argument, closure + setting closure, parameter name} per site x module DAG x batch shape x every sequence "
                "of <= 3 operations from {set hyperparameters, copy.deepcopy, fresh model + load_state_dict, pickle round trip} on <= 3 objects), for "
                "EVERY live object: stub digits of both objectives (objective object made with the model / made at evaluation) against the values of "
@@ -734,7 +781,11 @@ def run(ck):
         "CG/Lanczos estimate 'within its statistical tolerance' is not decided",
         "LOO is defined for single-output models (LeaveOneOutPseudoLikelihood cannot consume multitask targets); its prior / added-loss terms enter divided by N",
         "SumMarginalLogLikelihood is read as the mean over the member models of their objectives (its docstring's reading, which the code satisfies)",
-        "a parameter is either unbatched or carries the full batch shape of the objective (no partially batched parameters)",
+        "a parameter is either unbatched or carries the full batch shape of the marginal distribution (no partially batched parameters); the target's "
+        "batch shape is any shape of ExactObjective.tla TargetShapes that broadcasts against it; 'per batch element' is read as per element of the "
+        "broadcast of the two shapes and 'the number of observations' as that of one batch element (N x tasks), whatever the two shapes are",
+        "the float64 lattice stays on the cells where the prior-shape inference of _add_other_terms is right (DenseConventional); the others are "
+        "decided exactly by the assembly part",
         "the same added-loss term object registered on two modules is not enumerated",
         "missing observations (observation_nan_policy) belong to C16",
         "float64, 4-7 points (dense) / 2-3 points (assembly), noise >= 0.3 of a signal variance <= 2.7, cond(K+S) <= 1e4 verified on the oracle side",
@@ -748,7 +799,12 @@ def run(ck):
     ]
     wd = os.path.join(tlc.BUILD, PID)
     archs = ("plain", "shared", "mtask")
-    batches = ((), (2,), (3,), (2, 2)) if thorough else ((), (2,), (2, 2))
+    # batch shapes of the distribution; against each of them the target takes every batch shape of TargetShapes (equal, extra
+    # leading dimensions of the sizes `extras`, missing batch dimensions, unit dimensions, widened unit dimensions, both)
+    batches = ((), (2,), (3,), (2, 2), (1,), (2, 1), (1, 2)) if thorough else ((), (2,), (2, 2), (1,), (2, 1))
+    pattern_batches = batches if thorough else ((), (2,), (1,), (2, 1))
+    extras = (1, 2, 3) if thorough else (1, 3)
+    lattice_extras = (1, 3) if thorough else (3,)
     ns = (2, 3) if thorough else (3,)
     ninst = 2000 if thorough else 300
     parts = 4 if thorough else 2
@@ -765,9 +821,12 @@ def run(ck):
     cur_inv = ["ConventionalOK"] + (["PredictionsSharp"] if not REPAIRS_IN_TREE else [])
     for a in archs:
         job("asm_" + a, "assembly %s (model of the code in the tree + repaired model)" % a, "assembly", True, repairs=REPAIRS_IN_TREE, archs=(a,), batches=batches,
-            ns=ns, invariants=cur_inv + ["AssemblyOK"], workers=4)
+            ns=ns, extras=extras, patternbatches=pattern_batches, invariants=cur_inv + ["AssemblyOK", "DivisorOK"], workers=4)
+    # the same lattice with the slip "the number of observations is read off the target's shape": DivisorOK must fail
+    job("asm_slip", "assembly with the slip num_data_from_target (a counterexample is required)", "assembly", False, repairs=ALL_REPAIRS, archs=("plain", "mtask"),
+        batches=((), (2,)), patternbatches=((), (2,)), ns=(3,), extras=(3,), invariants=["DivisorOK"], workers=1, divslips=("num_data_from_target",))
     job("sum", "SumMarginalLogLikelihood", "sum", True, repairs=REPAIRS_IN_TREE, ns=(2, 3), maxmodels=3 if thorough else 2, invariants=["SumOK"], workers=2)
-    job("lattice", "dense lattice", "lattice", True, invariants=["LatticeOK"], workers=1)
+    job("lattice", "dense lattice", "lattice", True, invariants=["LatticeOK"], workers=2, extras=lattice_extras)
     # ---- history machine: registration forms x operations on the model objects
     hist_archs = ("plain", "shared") if "prior_memo" in REPAIRS_IN_TREE else ("plain",)
     hist_kw = dict(repairs=REPAIRS_IN_TREE, ns=(3,), regmenu=REG_MENU_THOROUGH if thorough else REG_MENU, histlen=3, maxobjs=3, maxgen=2,
@@ -791,6 +850,9 @@ def run(ck):
         if jb[1]["name"].endswith("/hist_slip"):
             check_slip_counterexample(ck, r)
             continue
+        if jb[1]["name"].endswith("/asm_slip"):
+            check_div_slip_counterexample(ck, r)
+            continue
         if r.violation:
             # every invariant is a statement about the specification alone (the transcribed code of the tree enters the replay as data: out.agree)
             raise tlc.TLCError("ExactObjective.tla %s violates %s: %s" % (lab, r.violation["name"], str(r.violation["trace"][-1:])[:600]))
@@ -809,17 +871,23 @@ def run(ck):
 
     cases = []
     # ---- assembly
-    npred = 0
+    npred, asm_patterns = 0, {}
     for r in r_asm:
         for st in evaluated(r):
             cf, out = plain(st["c"]), plain(st["out"])
             cf.pop("stub", None)
             npred += 0 if out["agree"] else 1
-            cases.append(dict(kind="asm", cf=cf, exp=out["exp"], code=out["code"], agree=bool(out["agree"]), seed=ck.seed * 7919 + len(cases)))
+            if not out["divisor"]:
+                raise core.Machinery("assembly state with a wrong divisor passed the invariant: %s" % (cf,))
+            pat = out["exp"]["pattern"]
+            asm_patterns[pat] = asm_patterns.get(pat, 0) + 1
+            cases.append(dict(kind="asm", cf=cf, exp=out["exp"], code=out["code"], agree=bool(out["agree"]), why=out["why"], seed=ck.seed * 7919 + len(cases)))
     nasm = len(cases)
     if nasm == 0:
         ck.vacuous("no assembly configurations generated")
-    ck.section("assembly", configurations=nasm, predicted_to_fail_by_model=npred)
+    if set(asm_patterns) != set(PATTERNS):
+        ck.vacuous("assembly lattice: (distribution batch, target batch) patterns reached: %s of %s" % (sorted(asm_patterns), list(PATTERNS)))
+    ck.section("assembly", configurations=nasm, predicted_to_fail_by_model=npred, configurations_by_batch_pattern=dict(sorted(asm_patterns.items())))
     # ---- sum
     nsum = 0
     for st in evaluated(r_sum):
@@ -846,16 +914,20 @@ def run(ck):
         ck.vacuous("TLC evaluated %d of %d rational instances" % (nrat, len(insts)))
     ck.section("rational", instances=nrat)
     # ---- dense lattice
-    ncell = 0
+    ncell, cell_patterns = 0, {}
     nseeds = 4 if thorough else 1
     for st in evaluated(r_lat):
         cell, out = plain(st["c"]), plain(st["out"])
         ncell += 1
+        pat = out["pattern"] + ("/shared inputs" if cell["xb"] == "shared" else "")
+        cell_patterns[pat] = cell_patterns.get(pat, 0) + 1
         for k in range(nseeds):
             cases.append(dict(kind="dense", cell=cell, exp=out, seed=(ck.seed * 104729 + ncell * 31 + k * 7) % (2 ** 31)))
     if ncell == 0:
         ck.vacuous("no dense lattice cells generated")
-    ck.section("dense", cells=ncell, seeds_per_cell=nseeds)
+    if not set(PATTERNS) - {"mixed"} <= set(cell_patterns) or "equal/shared inputs" not in cell_patterns:
+        ck.vacuous("dense lattice: (distribution batch, target batch) patterns reached: %s" % sorted(cell_patterns))
+    ck.section("dense", cells=ncell, seeds_per_cell=nseeds, cells_by_batch_pattern=dict(sorted(cell_patterns.items())))
     # ---- histories: every reachable state of the machine is one history
     nhist, forms_seen, ops_seen = 0, set(), set()
     for name_, r in by.items():
@@ -885,7 +957,15 @@ def run(ck):
         k, t = r.pop("cpu", ("?", 0.0))
         cpu[k] = cpu.get(k, 0.0) + t
     ck.extra["replay_cpu_s_by_kind"] = {k: round(v, 1) for k, v in sorted(cpu.items())}
+    # failures outside the classes the specification predicts for the tree are reported first (the list of cells that is printed is cut)
+    predicted_classes = ("C02/loo-mean-reshaped-to-target/", "C02/assembly/unbatched-prior-taken-for-batched/", "C02/assembly/shared-module/")
+    results.sort(key=lambda r: 1 if r.get("ok", True) or str(r.get("sig", "")).startswith(predicted_classes) else 0)
     ck.absorb(results)
+    failing = {}
+    for r in results:
+        if not r.get("ok", True):
+            failing[r["sig"]] = failing.get(r["sig"], 0) + 1
+    ck.extra["failing_cells_by_signature"] = dict(sorted(failing.items()))
     # ---- predictions of the code-shaped model vs the real code
     asm = [r for r in results if r.get("key", [None])[0] == "asm"]
     confirmed = sum(1 for r in asm if r.get("predicted") and not r.get("ok", True))
